@@ -17,6 +17,7 @@ import (
 	"github.com/lugu/qiloop/bus"
 	qnet "github.com/lugu/qiloop/bus/net"
 	"github.com/lugu/qiloop/type/object"
+	"github.com/lugu/qiloop/type/value"
 )
 
 // holdWriteStream: once armed, a write waits at the gate and then fails (the peer is gone by then)
@@ -97,6 +98,7 @@ func prEmitRaceMode(mode string) string {
 		mu     sync.Mutex
 		got    []int64
 		cancel func()
+		obj    bus.ObjectProxy
 	}
 	mk := func() (*sub, error) {
 		p, q := gonet.Pipe()
@@ -114,7 +116,7 @@ func prEmitRaceMode(mode string) string {
 		if err != nil {
 			return nil, err
 		}
-		s := &sub{cancel: cancel}
+		s := &sub{cancel: cancel, obj: bus.MakeObject(bus.NewProxy(cl, m, sid, 1))}
 		go func() {
 			for p := range ch {
 				s.mu.Lock()
@@ -153,6 +155,12 @@ func prEmitRaceMode(mode string) string {
 		case <-first:
 		case <-time.After(3 * time.Second):
 			return "stuck-announcement"
+		}
+		// the write is stored, whatever became of its announcement to the subscriber that is gone
+		if v, err := s3.obj.Property(value.String("level")); err != nil {
+			return "fail:read after the write: " + err.Error()
+		} else if _, got := prDecode(v); got != 42 {
+			return fmt.Sprintf("fail:stored the value read after the accepted write of 42 is %d", got)
 		}
 		select {
 		case <-update(43):
